@@ -112,7 +112,7 @@ impl Property for C02 {
         "Cases: (dividend of any zoo type/length/provenance, divisor vector of any type/length/provenance or native integer, form in {/ x6, % x6, div_rem}). Divisor classes: value 0 (empty or zeros(m)), 1, a, a+-1, powers of two, small value in a long vector (m > n and m > capacity of the dividend type), half-width random, random. Enumerated: all (n,a,m,b) n,m<=3/5 x 18x18 pairings x {/,%,div_rem}; native lattice; divisor-length sweep m in 1..capacity(L)+70 with value in {1,2,3} for every fixed dividend type and every divisor type able to hold m bits. Oracle: BigUint div_rem; additionally q*b+r=a and r<b asserted on read-back values; zero-valued divisor must panic in every form, non-zero must not. Non-trivial: divisor non-zero, val b <= val a (the subtract loop runs) and the quotient has >= 2 set bits; zero-divisor cases are counted in their own class. Distinct by hash of the whole case.".into()
     }
     fn random_cases(&self, tier: Tier) -> u64 {
-        tier.pick(40_000, 500_000)
+        tier.pick(200000, 1000000)
     }
     fn strategy(&self, tier: Tier) -> BoxedStrategy<C02Case> {
         let lmax = lmax_dyn(tier);
